@@ -326,10 +326,10 @@ def run_corruptions(seed: int):
 
 def families(tier: str, seed: int) -> List[gen.Spec]:
     q = tier == "quick"
-    return (gen.family_H(seed, 4 if q else 120)
-            + gen.family_T_random(seed + 1, 8 if q else 200, min_states=3, max_states=6)
-            + gen.family_D(seed + 2, 3 if q else 80)
-            + gen.family_R(seed + 3, 8 if q else 150))
+    return (gen.family_H(seed, 4 if q else 16)
+            + gen.family_T_random(seed + 1, 8 if q else 40, min_states=3, max_states=6)
+            + gen.family_D(seed + 2, 3 if q else 16)
+            + gen.family_R(seed + 3, 8 if q else 40))
 
 
 ACTOR_CONTS = ["ST_a1_X", "ST_s1_Y", "ST_sg_X", "ST_a1_GST", "ST_w_X", "ST_a1_PING", "SC_a1", "stop"]
@@ -419,7 +419,7 @@ def run(prop: str, tier: str, seed: int) -> int:
                 small = []
     if small:
         groups.append(small)
-    units = [{"specs": g, "engine": eng, "tlc_workers": 2, "max_states": 120 if q else 10 ** 8}
+    units = [{"specs": g, "engine": eng, "tlc_workers": 2, "max_states": 120 if q else 600}
              for g in groups for eng in ("sync", "async")]
     if NPROC > 1 and len(units) > 1:
         import concurrent.futures as cf
